@@ -1,7 +1,7 @@
 import vflib
 WRAPS = ("psGetEntropy", "gettimeofday", "time", "clock_gettime")
 def run(ctx):
-    st = [dict(variant="asan", name="c18", sources=["checks/c18_chunking.c", "harness/mx_wraps.c"], wraps=WRAPS,
+    st = [dict(variant="asan", name="c18", sources=["checks/c18_chunking.c", "harness/mx_wraps.c"], wraps=WRAPS, libs=["-lcrypto"],
                shards=vflib.NCPU, timeout=7200 if ctx.thorough else 1500)]
     rule = ("Each case = one endpoint (client or server) re-run alone, in a child forked from the same parent snapshot with pinned entropy and virtual clock, against the recorded "
             "peer byte stream of a scenario (full / resumed / ticket / client-auth / failing handshakes, then 3 application payloads each way and closure) under one partition of "
